@@ -15,7 +15,7 @@ and the extracted executable reachability (specification) on the same script.
 import os, json, re, time
 import vlib
 
-REGK = 'SRBALTEUYZWFV'
+REGK = 'SRBALTEUYZWFVPI'
 F1_SIG = 'mark-recursion-depth'
 MAX_CHAIN_REGULAR = 20000
 
@@ -41,7 +41,8 @@ class Sim:
 
     def ptrs(self, i):
         nd = self.n[i]
-        if nd['k'] in 'SsRrBWV': return [x for x in nd['f'] if x]
+        if nd['k'] in 'SsRrBWVP': return [x for x in nd['f'] if x]
+        if nd['k'] == 'I': return []
         if nd['k'] == 'F': return []
         if nd['k'] in 'TEYZ': return list(nd['kv'].values())
         return list(nd['items'])
@@ -159,6 +160,32 @@ class Sim:
         if len(self.stack) > 4000:
             for j in sorted(self.stack)[:500]:
                 if j != keep and j not in self.owned: self.drop(j)
+
+    VIEW_INPUTS = 'ALUTEYZ'
+
+    def view(self, k, a=0, b=0):
+        """heap view object (z Zip(a, b), l Slice(a), m Map(a), f Filter(a), r Range) allocated with new(); the managed
+        objects its constructor allocates take the following ids and are never used directly by the script"""
+        i = self.nid + 1
+        def mk(j, kind, f=(), items=()):
+            self.n[j] = {'k': kind, 'root': False, 'f': list(f), 'items': list(items), 'kv': {}}
+        if k == 'z':
+            mk(i, 'P', [i + 1, i + 2]); mk(i + 1, 'U', items=[a, b]); mk(i + 2, 'U'); extra = [i + 1, i + 2]
+        elif k == 'l':
+            mk(i, 'P', [a, i + 1]); mk(i + 1, 'P', [i + 2]); mk(i + 2, 'I', []); extra = [i + 1, i + 2]
+        elif k == 'r':
+            mk(i, 'P', [i + 1]); mk(i + 1, 'I', []); extra = [i + 1]
+        else:
+            mk(i, 'P', [a]); extra = []
+        self.nid = i + len(extra)
+        self.ids.append(i)                       # the internal objects are not offered as targets or subjects
+        self.owned.update(extra)
+        self.stack.add(i)
+        ins = '' if k == 'r' else ('=%d,%d' % (a, b) if k == 'z' else '=%d' % a)
+        self.emit('V%d%s%s' % (i, k, ins)); self.dirty()
+        return i
+
+    def use(self, i): self.emit('O%d' % i)
 
     def chain(self, n, kind, tail=0):
         """singly linked chain of n nodes of one kind (R Ref, B Box, S struct, U Tuple cons cell, V user type with a
@@ -310,6 +337,15 @@ class Sim:
     def script(self): return ' '.join(self.toks)
 
 
+TLS_SPECIAL = list(range(20, 30))      # keys "__x" "_" "" (200 x L) "__session" "__" "__GC2" "__Exceptions" "__G" "key with spaces"
+
+
+def tls_slot(rng, avoid=()):
+    """a thread-local key: half of the time one of the unusual but legal shapes"""
+    pool = [x for x in (TLS_SPECIAL if rng.random() < .5 else range(1, 9)) if x not in avoid]
+    return rng.choice(pool or [x for x in range(1, 19) if x not in avoid])
+
+
 def attach(s, t, rng, via=None):
     """make t reachable through a fresh or existing holder chosen at random; returns holder"""
     k = via or rng.choice('SRALTEUYZ')
@@ -325,7 +361,7 @@ def root_somehow(s, i, rng, tlsslot=None):
         s.keep(i)
         return ('stack', i)
     if kind == 'tls':
-        slot = tlsslot if tlsslot is not None else rng.randrange(1, 9)
+        slot = tlsslot if tlsslot is not None else tls_slot(rng, avoid=s.tls)
         s.tls_set(slot, i); s.drop(i)
         return ('tls', slot)
     hk = rng.choice('RSALTEUYZ')
@@ -368,7 +404,7 @@ def gen_random(rng, maxnodes, maxops):
             if rng.random() < .7:
                 h = s.pick(lambda h: s.n[h]['k'] in HOLD and h != i and s.usable(h) and ok_edge(s, h, i))
                 if h is not None: s.link(h, i)
-            if rng.random() < .15 and i not in s.owned and s.isreg(i): s.tls_set(rng.randrange(1, 6), i)
+            if rng.random() < .15 and i not in s.owned and s.isreg(i): s.tls_set(tls_slot(rng), i)
             if rng.random() < .75: s.drop(i)
         elif r < .38 and len(s.n) < maxnodes:
             # a Box with a freshly made, exclusively owned target
@@ -398,7 +434,7 @@ def gen_random(rng, maxnodes, maxops):
             if s.tls: s.tls_rem(rng.choice(sorted(s.tls)))
         elif r < .85:
             t = s.pick(lambda t: s.isreg(t) and t not in s.owned and s.usable(t))
-            if t is not None: s.tls_set(rng.randrange(1, 6), t)
+            if t is not None: s.tls_set(tls_slot(rng), t)
         elif r < .855 and len(s.n) < maxnodes:
             # copy of a usable object none of whose targets is exclusively owned
             c = s.pick(lambda i: s.n[i]['k'] in 'SRALTEYZU' and s.usable(i)
@@ -599,7 +635,7 @@ def gen_finaliser(rng):
         pk = rng.choice('KKTP')
         if pk == 'K': place = ('K',)
         elif pk == 'T':
-            slot = rng.choice([x for x in range(1, 9) if ('T', x) not in used]); place = ('T', slot)
+            slot = tls_slot(rng, avoid=[u[1] for u in used if u[0] == 'T']); place = ('T', slot)
         else:
             h = rng.choice(live); i = rng.randrange(len(s.n[h]['f']))
             if ('P', h, i) in used: place = ('K',)
@@ -629,6 +665,38 @@ def gen_finaliser(rng):
         elif place[0] == 'T': s.tls_rem(place[1])
         else: s.store(place[1], place[2], 0)
     s.exact(); s.collect()
+    return s.script()
+
+
+def gen_views(rng):
+    """heap view objects (Zip, Slice, Map, Filter, Range allocated with new) holding the ONLY reference to managed
+    containers: the inputs are built and filled, handed to the view, all their other roots are dropped, collections run,
+    the view is used (iterated), then dropped"""
+    s = Sim(rng)
+    views = []
+    for _ in range(rng.randrange(1, 4)):
+        k = rng.choice('zzlmfr')
+        ins = []
+        for _ in range({'z': 2, 'r': 0}.get(k, 1)):
+            c = s.new(rng.choice(Sim.VIEW_INPUTS))
+            for _ in range(rng.randrange(0, 5)):
+                x = s.new(rng.choice('SR')); s.link(c, x); s.drop(x)
+            ins.append(c)
+        v = s.view(k, *ins)
+        for c in ins: s.drop(c)
+        if rng.random() < .5:
+            r = root_somehow(s, v, rng)
+        else:
+            r = ('stack', v)
+        views.append((v, r))
+        if rng.random() < .4: s.collect(narrow=rng.random() < .5)
+        if rng.random() < .3: s.burst(rng.choice([5, 40]))
+    s.exact(); s.collect()
+    for v, r in views: s.use(v)
+    s.burst(30); s.exact()
+    for v, r in views:
+        s.use(v); unroot(s, r)
+        s.exact()
     return s.script()
 
 
@@ -663,9 +731,9 @@ def gen_deep(rng, length, kind=None, mix=None):
         if mix == 'elem':
             c = s.new(rng.choice('ALTEYZU'), root=rng.random() < .3)
             s.link(c, hd); s.drop(hd)
-            roots.append(root_somehow(s, c, rng, tlsslot=len(roots) + 1))
+            roots.append(root_somehow(s, c, rng))
         else:
-            roots.append(root_somehow(s, hd, rng, tlsslot=len(roots) + 1))
+            roots.append(root_somehow(s, hd, rng))
     s.exact(); s.collect()
     if rng.random() < .5: s.burst(rng.choice([10, 100]))
     s.collect(narrow=True)
@@ -701,7 +769,7 @@ def gen_bulk(rng):
     for _ in range(rng.randrange(1, 4)):
         k = rng.choice('AALLUTEYZ')
         c = s.new(k, root=rng.random() < .2)
-        r = root_somehow(s, c, rng, tlsslot=len(conts) + 1)
+        r = root_somehow(s, c, rng)
         conts.append((c, r))
         for _ in range(rng.randrange(1, 4)):
             if k in 'AL': mode = rng.choice('cca')
@@ -721,6 +789,7 @@ def gen_case1(rng, size):
     r = rng.random()
     if r < .08: return gen_finaliser(rng)
     if r < .16: return gen_bulk(rng)
+    if r < .22: return gen_views(rng)
     if r < .50: return gen_random(rng, size, max(12, size * 3))
     if r < .62: return gen_chain(rng, rng.choice([1, 2, 5, 20, 100, min(size * 2, 400)]))
     if r < .72: return gen_tuple_dag(rng, rng.randrange(2, 14), rng.choice([1, 2, 2, 3]))
@@ -747,6 +816,22 @@ def valid_script(case):
             v = [int(x) for x in re.findall(r'\d+', rest)]
             if c == '@': continue
             if c in 'NCGHM' and s.pending_finalisers(): return False      # only an exact collection may finalise an F node
+            if c == 'O':
+                if v[0] not in s.n or s.n[v[0]]['k'] != 'P' or not s.usable(v[0]): return False
+                continue
+            if c == 'V':
+                m = re.match(r'(\d+)([zlmfr])(?:=(\d+)(?:,(\d+))?)?$', rest)
+                if not m or s.pending_finalisers() or not owned_ok(): return False
+                i, k = int(m.group(1)), m.group(2)
+                a, b = int(m.group(3) or 0), int(m.group(4) or 0)
+                need = {'z': 2, 'r': 0}.get(k, 1)
+                if [a, b][:need].count(0) or (need < 2 and b) or (need == 0 and a): return False
+                for t in [a, b][:need]:
+                    if t not in s.n or s.n[t]['k'] not in Sim.VIEW_INPUTS or not s.usable(t) or t in s.owned: return False
+                if i <= s.nid or any(i <= q[0] <= i + 2 for q in s.qcfg.values()): return False
+                s.nid = i - 1
+                s.view(k, a, b)
+                continue
             if c == 'L':
                 m = re.match(r'(\d+),(\d+),([RBSUV]),(\d+)$', rest)
                 if not m or s.pending_finalisers() or not owned_ok(): return False
@@ -975,6 +1060,8 @@ def corr(case, impl, model):
 def nontrivial(case, impl):
     """some collection kept at least two nodes while at least one node had been reclaimed"""
     created = set(int(x) for x in re.findall(r'[NC](\d+)[A-Z=]', case))
+    for m in re.finditer(r'V(\d+)([zlmfr])', case):
+        created |= set(range(int(m.group(1)), int(m.group(1)) + {'z': 3, 'l': 3, 'r': 2}.get(m.group(2), 1)))
     for m in re.finditer(r'L(\d+),(\d+),[RBSUV]', case):
         created |= set(range(int(m.group(1)), int(m.group(1)) + int(m.group(2))))
     for m in re.finditer(r'B\d+,[cas],(\d+),(\d+)', case):
@@ -1004,6 +1091,12 @@ def classify(case, impl, why):
 
 
 CORPUS = [
+    # seed C18-r6-1: containers reachable only through a heap Zip / Slice / Map / Filter
+    'N1A N2S I1,0=2 K-2 N3L N4S I3,0=4 K-4 V10z=1,3 K-1 K-3 E O10 G M30 E O10 K-10 E',
+    'N1L N2S I1,0=2 K-2 V10m=1 V20f=1 V30r V40l=1 K-1 E O10 O20 O30 O40 K-10 K-40 E K-20 K-30 E',
+    # seed C01-r6-2: thread-local roots under keys of every legal shape, main thread and worker thread
+    'N1S T+24=1 K-1 N2R T+20=2 K-2 N3S T+21=3 K-3 N4S T+22=4 K-4 N5S T+23=5 K-5 E G T-24 E',
+    '@ N1S T+25=1 K-1 N2R T+26=2 K-2 N3S T+27=3 K-3 N4S T+28=4 K-4 N5S T+29=5 K-5 E G M40 E T-25 T-26 E',
     'L1,4100,R,0 E K-4100 E', 'L1,4200,U,0 T+1=4200 K-4200 G E T-1 E',       # seed C01-r5-2: marking must nest deeper than 4096
     'N1A B1,c,300,10 E G',                                 # seed C01-r3-1: threshold collections in the middle of concat
     'N1A B1,a,300,10 E', 'N1U B1,c,200,10 E',              # ... of assign into an Array, of concat into a heap Tuple
@@ -1165,6 +1258,14 @@ def run(ctx):
     def extra(dd):
         # directed search after a broken obligation / correspondence: deep structures first, then the random stream
         feed(dd, [gen_deep(ctx.rng, L, k, None) for L in (4095, 4096, 4097, 10000) for k in DEEP_KINDS])
+        # thread-local roots under every key shape (main and worker thread), heap views holding the only reference
+        tl = []
+        for slot in list(range(1, 4)) + TLS_SPECIAL:
+            for pre in ('', '@ '):
+                for k in 'SRA':
+                    tl.append('%sN1%s T+%d=1 K-1 E G M20 E T-%d E' % (pre, k, slot, slot))
+        feed(dd, tl)
+        feed(dd, [gen_views(ctx.rng) for _ in range(200)])
         feed(dd, [gen_case(ctx.rng, 60) for _ in range(10 * min(n, 300))])
     d.report(extra)
     # open finding F1: dedicated probe
